@@ -29,6 +29,9 @@ class Numeric:
         install_offset_contract(self.I)
         install_partitions(self.I)
         self.I.agg_hooks.append(self._agg_hook)
+        self.I.panic_hooks.append(self._panic_hook)
+        self.panics = {}        # entry label -> [(cfg index, state, cause)]
+        self.cur_cfg = 0
         self.results = {}       # entry label -> [(st, retval)]
         self.entry_args = {}    # entry label -> [(st, args)]  (initial configurations)
         self.oor_sites = {}     # key -> info
@@ -57,6 +60,9 @@ class Numeric:
             self._inv(I, st, fn, bb, si, span, path, ops[0], -OFF_MAX, OFF_MAX, '|Offset::Fixed| < 86_400')
         elif path == OOR:
             self._oor(I, st, fn, bb, si, span, ops)
+
+    def _panic_hook(self, I, st, site, cause):
+        self.panics.setdefault(I.cur_entry, []).append((self.cur_cfg, st.clone(), cause))
 
     def _inv(self, I, st, fn, bb, si, span, path, v, lo, hi, what):
         o = I.site(fn, 'INV', path, bb, si, span)
@@ -116,7 +122,8 @@ class Numeric:
         st0.frames[0] = {}
         outs = []
         try:
-            for st, args in builder(I, st0):
+            for ci, (st, args) in enumerate(builder(I, st0)):
+                self.cur_cfg = ci
                 outs.append((args, st, I.call_body(st, fn, args, ('entry', fn))))
         except Budget as e:
             self.budget_failures.append(str(e))
